@@ -395,6 +395,29 @@ def known_findings(prop):
     return out
 
 
+def _pid_alive(pid):
+    try:
+        os.kill(pid, 0)
+        return True
+    except ProcessLookupError:
+        return False
+    except OSError:
+        return True
+
+
+def private_dir(base):
+    """base/p<pid>, created empty; directories left behind by processes that no longer exist are removed."""
+    import shutil
+    os.makedirs(base, exist_ok=True)
+    for d in os.listdir(base):
+        if d.startswith("p") and d[1:].isdigit() and not _pid_alive(int(d[1:])):
+            shutil.rmtree(os.path.join(base, d), ignore_errors=True)
+    mine = os.path.join(base, "p%d" % os.getpid())
+    shutil.rmtree(mine, ignore_errors=True)
+    os.makedirs(mine, exist_ok=True)
+    return mine
+
+
 class Ctx:
     def __init__(self, prop, tier, seed):
         self.prop = prop
@@ -406,8 +429,9 @@ class Ctx:
         self.known_hits = []      # (finding id, what)
         self.coverage = {}
         self.assumptions = []
-        self.work = os.path.join(WORK, prop)
-        os.makedirs(self.work, exist_ok=True)
+        # one scratch directory per PROCESS: two runs of the same check at the same time (quick and
+        # thorough, or two seeds) must not remove each other's files
+        self.work = private_dir(os.path.join(WORK, prop))
         self.known = [r for r in known_findings(prop) if r.get("status") == "known"]
 
     def violation(self, what, replay, no_input=False):
